@@ -96,11 +96,13 @@ def run(chk):
     for i in range(400 if thorough else 25):
         labelled.append(("scenario-hoist:%d" % i, g6.scenario("hoist")))
         labelled.append(("scenario-default-lambda:%d" % i, g6.scenario("default-lambda")))
+        labelled.append(("scenario-defn-own-default:%d" % i, g6.scenario("defn-own-default")))
+        labelled.append(("scenario-shortcircuit:%d" % i, g6.scenario("shortcircuit")))
     chk.rule = ("programs = the documentation's let examples + seeded random programs with up to 4 nested binding constructs "
                 "(let with 1-2 sequential bindings, defn, fn stored and called later, lfor with own variables and setx, "
                 "setv/setx, a few classes, defn of pool names (hoisting), parameter defaults that are lambdas, first iterables that "
                 "read a name; plus randomly filled scenarios: defn of a name an outer let binds written inside an inner let, "
-                "lambda default with a parameter spelled like a let-bound name) over the names x y z, at module level and inside a function; every reference "
+                "lambda default with a parameter spelled like a let-bound name, defn of a let-bound name with a parameter default reading that name, setv/setx of a let-bound name (directly or through a closure) to a short-circuit/conditional value that needs statements) over the names x y z, at module level and inside a function; every reference "
                 "is logged. Each is (a) compiled with the scope classes instrumented -> machine correspondence, walk "
                 "correspondence, refinement instance; (b) executed and compared with the lexical reference interpreter "
                 "(log, exception kind, module globals). non-trivial = distinct program containing a let")
